@@ -1174,5 +1174,83 @@ theorem pySetSlice_extended {α} (xs : List α) (sl : Slice) (vals : List α) (a
     rw [if_neg (fun h => hl h.symm)]
 
 
+/-! ### the suite: tables are independent -/
+
+theorem commitAll_refines (s : Suite) (h : AllAligned s) :
+    ∃ s', commitAll s = (s', none) ∧ AllAligned s' ∧ s'.map (·.width) = s.map (·.width)
+      ∧ s'.map absS = (s.map absS).map (fun x => ⟨x.cur, x.cur⟩) := by
+  induction s with
+  | nil => exact ⟨[], rfl, h, rfl, rfl⟩
+  | cons t ts ih =>
+    have ht := h t (by simp)
+    obtain ⟨t', hc⟩ := commit_total t ht
+    obtain ⟨ts', hcs, hA, hw, hm⟩ := ih (fun u hu => h u (by simp [hu]))
+    obtain ⟨ht', _⟩ := commit_ok t t' ht hc
+    have hal : Aligned t' := by generalize t'.gz = g at ht'; subst ht'; exact aligned_sync _
+    have hwid : t'.width = t.width := by generalize t'.gz = g at ht'; subst ht'; rfl
+    have habs : absS t' = ⟨abs t, abs t⟩ := by
+      generalize t'.gz = g at ht'; subst ht'
+      unfold absS
+      rw [abs_sync]
+      rfl
+    refine ⟨t' :: ts', by simp [commitAll, hc, hcs], ?_, by simp [hwid, hw], ?_⟩
+    · intro u hu
+      simp only [List.mem_cons] at hu
+      rcases hu with rfl | hu
+      · exact hal
+      · exact hA u hu
+    · simp only [List.map_cons, habs, hm]
+      rfl
+
+theorem reloadAll_refines (s : Suite) :
+    AllAligned (reloadAll s) ∧ (reloadAll s).map (·.width) = s.map (·.width)
+      ∧ (reloadAll s).map absS = (s.map absS).map (fun x => ⟨x.stored, x.stored⟩) := by
+  refine ⟨?_, ?_, ?_⟩
+  · intro u hu
+    simp only [reloadAll, List.mem_map] at hu
+    obtain ⟨t, _, rfl⟩ := hu
+    exact aligned_sync t
+  · simp [reloadAll, sync]
+  · simp only [reloadAll, List.map_map]
+    apply List.map_congr_left
+    intro t _
+    show absS (sync t) = _
+    unfold absS
+    rw [abs_sync]
+    rfl
+
+theorem stepAt_refines (s : Suite) (k : Nat) (op : Op) (h : AllAligned s) :
+    AllAligned (stepAt s k op).1 ∧ (stepAt s k op).1.map (·.width) = s.map (·.width)
+    ∧ specStepS (s.map (·.width)) (s.map absS) (.at k op) = ((stepAt s k op).1.map absS, (stepAt s k op).2) := by
+  unfold stepAt specStepS
+  simp only [List.getElem?_map]
+  cases hk : s[k]? with
+  | none => exact ⟨h, rfl, by simp⟩
+  | some t =>
+    have ht := h t (List.mem_of_getElem? hk)
+    obtain ⟨hA, hw, hs⟩ := step_ok t op ht
+    simp only [Option.map_some]
+    refine ⟨?_, ?_, ?_⟩
+    · intro u hu
+      rcases List.mem_or_eq_of_mem_set hu with hu | rfl
+      · exact h u hu
+      · exact hA
+    · rw [List.map_set, hw]
+      have hkl : k < s.length := by
+        rcases Nat.lt_or_ge k s.length with h1 | h1
+        · exact h1
+        · rw [List.getElem?_eq_none_iff.mpr h1] at hk; cases hk
+      apply List.ext_getElem?
+      intro j
+      rw [List.getElem?_set]
+      by_cases hj : k = j
+      · subst hj
+        have hget : s[k] = t := by rw [List.getElem?_eq_getElem hkl] at hk; exact Option.some.inj hk
+        simp [hkl, hget]
+      · simp [hj]
+    · rw [hs]
+      simp [List.map_set]
+
+
 end L
 end Verif.C10
